@@ -51,6 +51,10 @@ class SymbolicBranch(Exception):
 NUM_ATTRS = {"bit_length", "is_integer", "to_bytes", "conjugate", "real", "imag", "as_integer_ratio", "hex", "numerator", "denominator"}
 
 
+class ABytes(list):
+    """a bytearray whose octets may be abstract"""
+
+
 def is_abs(v):
     return isinstance(v, (Res, AObj))
 
@@ -86,10 +90,20 @@ class AbsEval(ConstEval):
     # ------------------------------------------------------------------ truth / operators on terms
     def truth(self, v):
         if isinstance(v, Res):
-            raise SymbolicBranch(v)
+            return self.branch(v, None)
         if isinstance(v, AObj):
             return True
         return super().truth(v)
+
+    def branch(self, term, node):
+        """truth value of a condition on abstract values: decided by the oracle of the caller (a valuation of the predicates it enumerates),
+        otherwise the evaluation stops with SymbolicBranch"""
+        orc = self.__dict__.get("oracle")
+        if orc is not None:
+            r = orc(term)
+            if r is not None:
+                return bool(r)
+        raise SymbolicBranch(term, node)
 
     def binop(self, op, a, b):
         if isinstance(a, Res) or isinstance(b, Res):
@@ -118,9 +132,9 @@ class AbsEval(ConstEval):
                     t = pytype_of(s)
                     if t is not None and type(other).__name__ != t and not (t in ("int", "float") and isinstance(other, (int, float))):
                         return isinstance(op, ast.NotEq)  # values of different types are unequal
-            raise SymbolicBranch(Res(type(op).__name__, a, b), node)
+            return self.branch(Res(type(op).__name__, a, b), node)
         if isinstance(op, (ast.In, ast.NotIn)) and is_abs(a):
-            raise SymbolicBranch(Res(type(op).__name__, a, repr(b)[:40]), node)
+            return self.branch(Res(type(op).__name__, a, repr(b)[:40]), node)
         if isinstance(a, AObj) or isinstance(b, AObj):
             if isinstance(op, (ast.Eq, ast.NotEq)):
                 return (a is b) == isinstance(op, ast.Eq)
@@ -231,7 +245,7 @@ class AbsEval(ConstEval):
             v = self.eval(e.operand, env, mod)
             if isinstance(v, Res):
                 if isinstance(e.op, ast.Not):
-                    raise SymbolicBranch(v, e)
+                    return not self.branch(v, e)
                 return Res(type(e.op).__name__, v)
             if isinstance(v, AObj) and isinstance(e.op, ast.Not):
                 return False
@@ -372,7 +386,7 @@ class AbsEval(ConstEval):
                 if pytype_of(base) == "str" and e.func.attr in ("lower", "upper", "strip", "casefold"):
                     return Sym(f"{e.func.attr}({base!r})", "str") if False else _typed(Res(e.func.attr, base), "str")
                 if pytype_of(base) == "str" and e.func.attr in ("startswith", "endswith", "isdigit"):
-                    raise SymbolicBranch(Res(e.func.attr, base, *args), e)
+                    return self.branch(Res(e.func.attr, base, *args), e)
                 if pytype_of(base) in ("datetime", "Decimal") or (pytype_of(base) in ("float", "int") and e.func.attr in NUM_ATTRS):
                     kw = {k.arg: self.eval(k.value, env, mod) for k in e.keywords if k.arg}
                     return Res("method:" + e.func.attr, base, *args, *[Res("kw:" + k, v) for k, v in sorted(kw.items())])
@@ -391,7 +405,7 @@ class AbsEval(ConstEval):
                         raise AbsRaise(type(ex).__name__, str(ex))
                 if isinstance(base, str) and e.func.attr == "join":
                     return Res("join", base, *args)
-        if name in ("isinstance", "hasattr", "getattr", "next", "iter", "cast", "float", "int", "str", "round", "len", "bool", "abs", "datetime", "Decimal", "min", "max", "any", "all", "list", "tuple", "type", "divmod", "pow", "hash"):
+        if name in ("isinstance", "hasattr", "getattr", "next", "iter", "cast", "float", "int", "str", "round", "len", "bool", "abs", "datetime", "Decimal", "min", "max", "any", "all", "list", "tuple", "type", "divmod", "pow", "hash", "bytes", "bytearray"):
             f = None
             if isinstance(e.func, ast.Name) and (e.func.id in env):
                 f = env[e.func.id]
@@ -498,6 +512,12 @@ class AbsEval(ConstEval):
 
     def builtin(self, name, args, kw, node):
         a0 = args[0] if args else None
+        if name in ("bytes", "bytearray") and self.__dict__.get("abstract_bytes") and not kw:
+            # octet strings with abstract elements are lists (bytearray) / tuples (bytes) of octet values
+            if not args:
+                return ABytes() if name == "bytearray" else ()
+            if len(args) == 1 and isinstance(a0, (list, tuple)) and any(is_abs(x) for x in a0) or isinstance(a0, ABytes):
+                return ABytes(a0) if name == "bytearray" else tuple(a0)
         if name in ("int", "float", "str") and args and not any(is_abs(a) for a in args) and not kw and all(isinstance(a, (int, float, str, bool, bytes)) for a in args):
             try:
                 return {"int": int, "float": float, "str": str}[name](*args)
@@ -545,7 +565,7 @@ class AbsEval(ConstEval):
             return NotImplemented
         if name in ("float", "int", "str", "round", "abs", "bool", "Decimal") and args and isinstance(a0, Res):
             if name == "bool":
-                raise SymbolicBranch(a0, node)
+                return self.branch(a0, node)
             if name == pytype_of(a0) and len(args) == 1:
                 return a0
             # partial operations on abstract values: what they can raise for some value of their class (recorded unless a handler on the dynamic
@@ -567,6 +587,10 @@ class AbsEval(ConstEval):
         if name == "len" and len(args) == 1:
             if isinstance(a0, Res):
                 return _typed(Res("len", a0), "int")
+            if isinstance(a0, AObj) and a0.cls_key is not None:
+                lm = self.M.find_method(a0.cls_key, "__len__")
+                if lm is not None:
+                    return self.call_func(FuncRef(lm.mod, lm.node), [a0])
             if a0 is None or isinstance(a0, AObj) or isinstance(a0, (int, float)):
                 raise AbsRaise("TypeError", f"len() of {a0!r}")
             return NotImplemented
